@@ -14,34 +14,34 @@ open Uniflow Uniflow.Writer Uniflow.Teardown Uniflow.WriterProofs
 theorem accepts_eq (st : Writer.Step) (o : Writer.Out) : accepts st o = isAccepted st o := by
   cases st <;> rfl
 
-theorem receive_done (m : W) (a : Ans) (r : RId) : (receive m a r).1.done = m.done := by
-  simp only [receive]
+theorem receive_done (m : W) (a : Ans) (r : RId) (g : Nat) : (receive m a r g).1.done = m.done := by
+  simp only [receive, receiveWith]
   repeat (first | rfl | split)
 
 /-- Only `closeW` changes `done`. -/
 theorem step_done (m : W) (st : Writer.Step) (h : isClose st = false) : (Writer.step m st).1.done = m.done := by
   cases st with
-  | link r => simp only [Writer.step]; repeat (first | rfl | split)
-  | unlink r => simp only [Writer.step]; repeat (first | rfl | split)
-  | write v => simp only [Writer.step]; repeat (first | rfl | split)
+  | link r => simp only [Writer.step, stepWith]; repeat (first | rfl | split)
+  | unlink r => simp only [Writer.step, stepWith]; repeat (first | rfl | split)
+  | write v => simp only [Writer.step, stepWith]; repeat (first | rfl | split)
   | answer r a =>
-    simp only [Writer.step]; split
+    simp only [Writer.step, stepWith]; split
     · rfl
     · rw [receive_done]
-  | closeR r => simp only [Writer.step]; repeat (first | rfl | split)
+  | closeR r => simp only [Writer.step, stepWith]; repeat (first | rfl | split)
   | deliverDrop r =>
-    simp only [Writer.step]; split
+    simp only [Writer.step, stepWith]; split
     · rfl
     · simp only; rw [receive_done]
   | closeW => simp [isClose] at h
 
 theorem closeW_done (m : W) : (Writer.step m .closeW).1.done = true := by
-  simp only [Writer.step]; split
+  simp only [Writer.step, stepWith]; split
   · assumption
   · rfl
 
 theorem closeW_rows (m : W) (h : m.done = true → m.rows = []) : (Writer.step m .closeW).1.rows = [] := by
-  simp only [Writer.step]; split
+  simp only [Writer.step, stepWith]; split
   · rename_i hd; exact h hd
   · rfl
 
@@ -49,19 +49,19 @@ theorem closeW_rows (m : W) (h : m.done = true → m.rows = []) : (Writer.step m
 theorem done_quiet (m : W) (st : Writer.Step) (hd : m.done = true) (hr : m.rows = []) :
     (Writer.step m st).2.emits = [] ∧ (Writer.step m st).1.rows = [] ∧ (Writer.step m st).1.done = true := by
   cases st with
-  | link r => simp [Writer.step, hd, hr]
-  | unlink r => simp [Writer.step, hd, hr]
-  | write v => simp [Writer.step, hd, hr]
+  | link r => simp [Writer.step, stepWith, hd, hr]
+  | unlink r => simp [Writer.step, stepWith, hd, hr]
+  | write v => simp [Writer.step, stepWith, hd, hr]
   | answer r a =>
-    simp only [Writer.step]; split
+    simp only [Writer.step, stepWith]; split
     · exact ⟨rfl, hr, hd⟩
-    · simp [receive, hd, hr]
-  | closeR r => simp only [Writer.step]; split <;> exact ⟨rfl, hr, hd⟩
+    · simp [receive, receiveWith, hd, hr]
+  | closeR r => simp only [Writer.step, stepWith]; split <;> exact ⟨rfl, hr, hd⟩
   | deliverDrop r =>
-    simp only [Writer.step]; split
+    simp only [Writer.step, stepWith]; split
     · exact ⟨rfl, hr, hd⟩
-    · simp [receive, hd, hr]
-  | closeW => simp [Writer.step, hd, hr]
+    · simp [receive, receiveWith, hd, hr]
+  | closeW => simp [Writer.step, stepWith, hd, hr]
 
 /-! ### The pump under `enqAll` -/
 
@@ -381,7 +381,7 @@ open Uniflow Uniflow.Writer Uniflow.Teardown Uniflow.WriterProofs Uniflow.Writer
 
 /-- Held-back drop notices of the linked readers (goroutines `Reader.Close` spawned that have
 not run yet). -/
-def dropSum (m : W) : Nat := (m.readers.map m.drops).sum
+def dropSum (m : W) : Nat := (m.readers.map fun r => (m.drops r).length).sum
 
 /-- The measure: pending rows (twice: completing a row moves it into the pump) + buffered
 packets + held-back drop notices + responses still owed to the consumer + 1 while the pump
@@ -392,22 +392,18 @@ def mu (c : Comp) : Nat :=
 /-- The writer has been torn down: closed itself, or every reader linked to it is closed. -/
 def TornDown (c : Comp) : Prop := c.w.done = true ∨ ∀ r ∈ c.w.readers, c.w.closed r = true
 
-/-- The writer machine is the image of a specification state satisfying C01's invariant. -/
-def Backed (c : Comp) : Prop := ∃ s : S, c.w = absW s ∧ Inv s
+/-- The writer machine is related (C01's simulation relation) to a specification state. -/
+def Backed (c : Comp) : Prop := ∃ s : S, Rel c.w s
 
-theorem backed_init : Backed {} := ⟨S.init, by rw [absW_init]; rfl, inv_init⟩
+theorem backed_init : Backed {} := ⟨S.init, rel_init⟩
 
 theorem backed_applyC (rule : Pump.Rule) (c : Comp) (x : CStep) (hb : Backed c)
     (hx : ∀ st, x = .w st → relinkPending c.w st = false) : Backed (applyC rule c x).1 := by
   cases x with
   | w st =>
-    obtain ⟨s, e, hI⟩ := hb
-    have hn := hx st rfl
-    rw [e] at hn
-    obtain ⟨e2, hI'⟩ := sim_step hI st hn
-    refine ⟨(WriterSpec.step s st).1, ?_, hI'⟩
-    simp only [applyC]
-    rw [e, e2]
+    obtain ⟨s, hR⟩ := hb
+    obtain ⟨_, hR'⟩ := sim_step hR st
+    exact ⟨(WriterSpec.step s st).1, by simpa only [applyC] using hR'⟩
   | recv =>
     simp only [applyC]
     split
@@ -420,7 +416,7 @@ theorem backed_applyC (rule : Pump.Rule) (c : Comp) (x : CStep) (hb : Backed c)
 buffered or the channel is closed (the receive returns), or a pending row waits for a held-back
 drop notice. -/
 theorem enabled (c : Comp) (hi : CInv c) (hb : Backed c) (ht : TornDown c) (ho : c.outstanding > 0) :
-    c.p.buf ≠ [] ∨ c.p.exited = true ∨ (c.w.done = false ∧ ∃ r ∈ c.w.readers, c.w.drops r > 0) := by
+    c.p.buf ≠ [] ∨ c.p.exited = true ∨ (c.w.done = false ∧ ∃ r ∈ c.w.readers, (c.w.drops r).length > 0) := by
   by_cases hbuf : c.p.buf = []
   · cases hex : c.p.exited with
     | true => exact Or.inr (Or.inl rfl)
@@ -440,9 +436,11 @@ theorem enabled (c : Comp) (hi : CInv c) (hb : Backed c) (ht : TornDown c) (ho :
       rcases ht with h | h
       · rw [hnd] at h; cases h
       · exact h
-    obtain ⟨s, e, hI⟩ := hb
-    rw [e] at hrows hclosed ⊢
-    simp only [absW] at hrows hclosed ⊢
+    obtain ⟨s, hR⟩ := hb
+    have hI := hR.inv
+    rw [hR.rows] at hrows
+    rw [hR.readers]
+    rw [hR.readers, hR.closed] at hclosed
     cases hsr : s.rows with
     | nil => simp [hsr] at hrows
     | cons row rest =>
@@ -458,15 +456,13 @@ theorem enabled (c : Comp) (hi : CInv c) (hb : Backed c) (ht : TornDown c) (ho :
       have hlinked : p.1 ∈ s.linked := hpre.subset hmem
       have hcl := hclosed p.1 hlinked
       refine ⟨p.1, hlinked, ?_⟩
-      have hob : owedBy s.rows p.1 ≠ [] := by
+      have hob : (owedBy s.rows p.1).length > 0 := by
         rw [hsr, owedBy_cons, howes]; simp
-      rcases hI.owe p.1 hlinked with h1 | h1
-      · rw [h1] at hob
-        simp only [hcl, if_true]
-        cases hl : s.owed p.1 with
-        | nil => exact absurd hl hob
-        | cons _ _ => simp
-      · exact absurd h1.2 hob
+      have hcnt := fifoOK_count (hR.fifo p.1)
+      have hmc : c.w.closed p.1 = true := by rw [hR.closed]; exact hcl
+      simp only [WriterProofs.fifo, hmc, if_true] at hcnt
+      have := List.length_filter_le (fun g => some g == linkOf c.w p.1) (c.w.drops p.1)
+      omega
   · exact Or.inl hbuf
 
 /-- A receive that returns (a packet, or the closed channel) strictly decreases the measure and
@@ -496,9 +492,9 @@ theorem exit_decreases (c : Comp) (hd : c.p.inClosed = true) (hex : c.p.exited =
   simp only [applyC, Pump.stepR, hd, if_true, mu, dropSum, Comp.outstanding, hex, List.length_nil]
   exact ⟨by simp; omega, trivial⟩
 
-theorem receive_rd (m : W) (a : Ans) (r : RId) :
-    (receive m a r).1.readers = m.readers ∧ (receive m a r).1.drops = m.drops ∧ (receive m a r).1.closed = m.closed := by
-  simp only [receive]
+theorem receive_rd (m : W) (a : Ans) (r : RId) (g : Nat) :
+    (receive m a r g).1.readers = m.readers ∧ (receive m a r g).1.drops = m.drops ∧ (receive m a r g).1.closed = m.closed := by
+  simp only [receive, receiveWith]
   repeat (first | exact ⟨rfl, rfl, rfl⟩ | split)
 
 theorem sum_dec (l : List RId) (f : RId → Nat) (r : RId) (hnd : l.Nodup) (hr : r ∈ l) (hf : f r > 0) :
@@ -524,41 +520,53 @@ theorem sum_dec (l : List RId) (f : RId → Nat) (r : RId) (hnd : l.Nodup) (hr :
       simp only [hy, if_false]; omega
 
 theorem drop_decreases (c : Comp) (hi : CInv c) (hb : Backed c) (r : RId) (hr : r ∈ c.w.readers)
-    (hnd : c.w.done = false) (hd : c.w.drops r > 0) :
+    (hnd : c.w.done = false) (hd : (c.w.drops r).length > 0) :
     mu (applyC .discard c (.w (.deliverDrop r))).1 < mu c ∧
     (applyC .discard c (.w (.deliverDrop r))).1.w.done = false ∧
     (applyC .discard c (.w (.deliverDrop r))).1.w.readers = c.w.readers ∧
     (applyC .discard c (.w (.deliverDrop r))).1.w.closed = c.w.closed := by
   have hnodup : c.w.readers.Nodup := by
-    obtain ⟨s, e, hI⟩ := hb
-    rw [e]; exact hI.nodup
+    obtain ⟨s, hR⟩ := hb
+    rw [hR.readers]; exact hR.inv.nodup
   have hic : c.p.inClosed = false := by rw [hi.closed]; exact hnd
-  have hne : c.w.drops r ≠ 0 := by omega
-  let m' : W := { c.w with drops := fun x => if x = r then c.w.drops r - 1 else c.w.drops x }
+  obtain ⟨g, rest, hgr⟩ : ∃ g rest, c.w.drops r = g :: rest := by
+    cases hdr : c.w.drops r with
+    | nil => simp [hdr] at hd
+    | cons g rest => exact ⟨g, rest, rfl⟩
+  let m' : W := { c.w with drops := fun x => if x = r then rest else c.w.drops x }
   have hst : Writer.step c.w (.deliverDrop r) =
-      ((receive m' Ans.dropped r).1,
-       { (receive m' Ans.dropped r).2 with ret := match (receive m' Ans.dropped r).2.ret with | .panic s => .panic s | _ => .unit }) := by
-    simp only [Writer.step, hne, if_false]; rfl
-  obtain ⟨_, _, hlen, _⟩ := receive_facts m' Ans.dropped r hi.head
-  obtain ⟨hrd, hdr, hcl⟩ := receive_rd m' Ans.dropped r
-  obtain ⟨e1, _, _, _, e5⟩ := enqAll_open .discard c.p (receive m' Ans.dropped r).2.emits hic
-  have hdone : (receive m' Ans.dropped r).1.done = false := by rw [receive_done]; exact hnd
+      ((receive m' Ans.dropped r g).1,
+       { (receive m' Ans.dropped r g).2 with ret := match (receive m' Ans.dropped r g).2.ret with | .panic s => .panic s | _ => .unit }) := by
+    simp only [Writer.step, stepWith, hgr]; rfl
+  obtain ⟨_, _, hlen, _⟩ := receive_facts m' Ans.dropped r g hi.head
+  obtain ⟨hrd, hdr, hcl⟩ := receive_rd m' Ans.dropped r g
+  obtain ⟨e1, _, _, _, e5⟩ := enqAll_open .discard c.p (receive m' Ans.dropped r g).2.emits hic
+  have hdone : (receive m' Ans.dropped r g).1.done = false := by rw [receive_done]; exact hnd
   have hna : accepts (.deliverDrop r) (Writer.step c.w (.deliverDrop r)).2 = false := rfl
   simp only [applyC, hna, hst, isClose, Bool.false_eq_true, if_false]
   refine ⟨?_, hdone, hrd, hcl⟩
   simp only [mu, dropSum, e1, e5, hrd, hdr, List.length_append, Comp.outstanding, Nat.add_zero]
-  have hs := sum_dec c.w.readers c.w.drops r hnodup hr hd
-  show 2 * (receive m' Ans.dropped r).1.rows.length + (c.p.buf.length + (receive m' Ans.dropped r).2.emits.length) +
-      (c.w.readers.map fun x => if x = r then c.w.drops r - 1 else c.w.drops x).sum + (c.accepted - c.got.length) +
+  have hs := sum_dec c.w.readers (fun x => (c.w.drops x).length) r hnodup hr hd
+  have hmap : (c.w.readers.map fun x => (m'.drops x).length) =
+      (c.w.readers.map fun x => if x = r then (c.w.drops r).length - 1 else (c.w.drops x).length) := by
+    apply List.map_congr_left
+    intro x _
+    show (if x = r then rest else c.w.drops x).length = _
+    split
+    · rw [hgr]; simp
+    · rfl
+  show 2 * (receive m' Ans.dropped r g).1.rows.length + (c.p.buf.length + (receive m' Ans.dropped r g).2.emits.length) +
+      (c.w.readers.map fun x => (m'.drops x).length).sum + (c.accepted - c.got.length) +
       (if c.p.exited = true then 0 else 1) < _
-  have hl : (receive m' Ans.dropped r).2.emits.length + (receive m' Ans.dropped r).1.rows.length = c.w.rows.length := hlen
+  rw [hmap]
+  have hl : (receive m' Ans.dropped r g).2.emits.length + (receive m' Ans.dropped r g).1.rows.length = c.w.rows.length := hlen
   omega
 
 /-- A torn-down writer accepts no write: no new response becomes owed. -/
 theorem torn_no_accept (c : Comp) (ht : TornDown c) (v : Nat) :
     (applyC .discard c (.w (.write v))).1.accepted = c.accepted := by
   have : accepts (.write v) (Writer.step c.w (.write v)).2 = false := by
-    simp only [Writer.step]
+    simp only [Writer.step, stepWith]
     rcases ht with hd | hc
     · simp [hd, accepts]
     · split
@@ -568,7 +576,7 @@ theorem torn_no_accept (c : Comp) (ht : TornDown c) (v : Nat) :
         · have hacc : accepting c.w.closed c.w.readers = [] := by
             simp only [accepting, List.filter_eq_nil_iff]
             intro r hr; simp [hc r hr]
-          simp [hacc, accepts]
+          split <;> simp [hacc, accepts]
   simp only [applyC, this, Bool.false_eq_true, if_false, Nat.add_zero]
 
 /-- A fair step of a torn-down writer: the consumer's receive, a held-back drop notice, or the
